@@ -55,6 +55,10 @@ type Obligation struct {
 	Bounds     string                    `json:"bounds"`
 	TimeoutS   int                       `json:"timeout_s"`
 	Lemmas     bool                      `json:"lemmas"`
+	MergeFuncs []string                  `json:"merge_funcs"`
+	mergeFuncs map[string]bool
+	Guards     []Guard                   `json:"guards"`
+	guards     map[string]*Guard
 
 	pkgPath string
 	fn      *ssa.Function
@@ -70,6 +74,15 @@ func (o *Obligation) GoMode(name string) string {
 		return m
 	}
 	return "skip"
+}
+
+// Guard: fields of Type may only be accessed while the mutex field is held
+// (lockset obligation).  Fields: names, or "*" for all but the mutex.
+type Guard struct {
+	Type   string   `json:"type"`
+	Mutex  string   `json:"mutex"`
+	Fields []string `json:"fields"`
+	Except []string `json:"except"`
 }
 
 type Spec struct {
@@ -92,6 +105,7 @@ type ObResult struct {
 	Verdicts       int
 	Merged         int
 	IfConverted    int
+	StateMerges    int
 	Spawned        int
 	ImprecisePaths int
 	Reached        map[string]bool
@@ -141,6 +155,7 @@ func (r *ObResult) absorb(o *ObResult) {
 	r.Verdicts += o.Verdicts
 	r.Merged += o.Merged
 	r.IfConverted += o.IfConverted
+	r.StateMerges += o.StateMerges
 	r.Spawned += o.Spawned
 	r.ImprecisePaths += o.ImprecisePaths
 	for k := range o.Reached {
@@ -724,6 +739,14 @@ func cmdCheck(args []string) int {
 			o.params[k] = v
 		}
 		o.stubs = buildStubs(o)
+		o.guards = map[string]*Guard{}
+		for i := range o.Guards {
+			o.guards[o.Guards[i].Type] = &o.Guards[i]
+		}
+		o.mergeFuncs = map[string]bool{}
+		for _, m := range o.MergeFuncs {
+			o.mergeFuncs[m] = true
+		}
 		obs = append(obs, o)
 	}
 	results := runObligations(l, cfg, obs)
